@@ -255,7 +255,7 @@ func closeDuringReceive(r *mon.Run, rec *recorder) {
 			case x.err == nil:
 				rec.Violation(run, "Receive:close-during-receive:message", sprintf("Close from another goroutine after %d of %d octets of a frame had arrived: Receive returned a %d-octet message and no error", arrived, len(frame), len(x.got)), cs)
 			}
-		case <-time.After(20 * time.Second):
+		case <-mon.AfterSteps(20 * time.Second):
 			rec.Inconclusive(sprintf("close-during-receive: Receive did not return within 20 s of Close (%d of %d octets arrived)", arrived, len(frame)))
 		}
 		b.Close()
